@@ -34,64 +34,57 @@ Definition dpos (reg : Z) (p : apos) : Z :=
   match p with PAbs z => z | PSame => reg | PRel d => wrap_u64 (reg + d) end.
 
 Record dstate := {
-  d_ob : tbl; d_fl : tbl; d_fn : tbl;
-  d_cob : string; d_cfl : string; d_cfn : string;           (* current ob / fl / fn *)
-  d_pfl : option string; d_pfn : option string;              (* pending cfl / cfn *)
-  d_call : option (Z * Z);                                    (* pending calls= target *)
-  d_addr : Z; d_line : Z;                                     (* current position *)
+  d_tabs : tbl * tbl * tbl;                                   (* ob, fl (files), fn (functions) *)
+  d_cur : string * string * string;                           (* current ob / fl / fn *)
+  d_pend : option string * option string * option (Z * Z);    (* pending cfl, cfn, calls= target *)
+  d_pos : Z * Z;                                              (* current position: address, line *)
   d_out : list cgev }.                                        (* reversed *)
 
 Definition d_init : dstate :=
-  {| d_ob := []; d_fl := []; d_fn := []; d_cob := ""; d_cfl := ""; d_cfn := ""; d_pfl := None; d_pfn := None;
-     d_call := None; d_addr := 0; d_line := 0; d_out := [] |}.
+  {| d_tabs := ([], [], []); d_cur := ("", "", ""); d_pend := (None, None, None); d_pos := (0, 0); d_out := [] |}.
 
 Definition dstep (s : dstate) (l : cgline) : option dstate :=
+  let '(tob, tfl, tfn) := d_tabs s in
+  let '(cob, cfl, cfn) := d_cur s in
+  let '(pfl, pfn, call) := d_pend s in
+  let '(addr, line0) := d_pos s in
   match l with
   | GHeader _ | GBlank => Some s
-  | GOb r => match resolve (d_ob s) r with
-             | Some (n, t) => Some {| d_ob := t; d_fl := d_fl s; d_fn := d_fn s; d_cob := n; d_cfl := d_cfl s; d_cfn := d_cfn s;
-                                      d_pfl := d_pfl s; d_pfn := d_pfn s; d_call := d_call s; d_addr := d_addr s; d_line := d_line s; d_out := d_out s |}
+  | GOb r => match resolve tob r with
+             | Some (n, t) => Some {| d_tabs := (t, tfl, tfn); d_cur := (n, cfl, cfn); d_pend := d_pend s; d_pos := d_pos s; d_out := d_out s |}
              | None => None end
-  | GFl r => match resolve (d_fl s) r with
-             | Some (n, t) => Some {| d_ob := d_ob s; d_fl := t; d_fn := d_fn s; d_cob := d_cob s; d_cfl := n; d_cfn := d_cfn s;
-                                      d_pfl := d_pfl s; d_pfn := d_pfn s; d_call := d_call s; d_addr := d_addr s; d_line := d_line s; d_out := d_out s |}
+  | GFl r => match resolve tfl r with
+             | Some (n, t) => Some {| d_tabs := (tob, t, tfn); d_cur := (cob, n, cfn); d_pend := d_pend s; d_pos := d_pos s; d_out := d_out s |}
              | None => None end
-  | GFn r => match resolve (d_fn s) r with
-             | Some (n, t) => Some {| d_ob := d_ob s; d_fl := d_fl s; d_fn := t; d_cob := d_cob s; d_cfl := d_cfl s; d_cfn := n;
-                                      d_pfl := d_pfl s; d_pfn := d_pfn s; d_call := d_call s; d_addr := d_addr s; d_line := d_line s; d_out := d_out s |}
+  | GFn r => match resolve tfn r with
+             | Some (n, t) => Some {| d_tabs := (tob, tfl, t); d_cur := (cob, cfl, n); d_pend := d_pend s; d_pos := d_pos s; d_out := d_out s |}
              | None => None end
-  | GCfl r => match resolve (d_fl s) r with
-              | Some (n, t) => Some {| d_ob := d_ob s; d_fl := t; d_fn := d_fn s; d_cob := d_cob s; d_cfl := d_cfl s; d_cfn := d_cfn s;
-                                       d_pfl := Some n; d_pfn := d_pfn s; d_call := d_call s; d_addr := d_addr s; d_line := d_line s; d_out := d_out s |}
+  | GCfl r => match resolve tfl r with
+              | Some (n, t) => Some {| d_tabs := (tob, t, tfn); d_cur := d_cur s; d_pend := (Some n, pfn, call); d_pos := d_pos s; d_out := d_out s |}
               | None => None end
-  | GCfn r => match resolve (d_fn s) r with
-              | Some (n, t) => Some {| d_ob := d_ob s; d_fl := d_fl s; d_fn := t; d_cob := d_cob s; d_cfl := d_cfl s; d_cfn := d_cfn s;
-                                       d_pfl := d_pfl s; d_pfn := Some n; d_call := d_call s; d_addr := d_addr s; d_line := d_line s; d_out := d_out s |}
+  | GCfn r => match resolve tfn r with
+              | Some (n, t) => Some {| d_tabs := (tob, tfl, t); d_cur := d_cur s; d_pend := (pfl, Some n, call); d_pos := d_pos s; d_out := d_out s |}
               | None => None end
   | GCost p line cost =>
-      match d_call s with
+      match call with
       | Some _ => None
       | None =>
-          let a := dpos (d_addr s) p in
-          Some {| d_ob := d_ob s; d_fl := d_fl s; d_fn := d_fn s; d_cob := d_cob s; d_cfl := d_cfl s; d_cfn := d_cfn s;
-                  d_pfl := d_pfl s; d_pfn := d_pfn s; d_call := None; d_addr := a; d_line := line;
-                  d_out := EvCost (d_cob s) (d_cfl s) (d_cfn s) a line cost :: d_out s |}
+          let a := dpos addr p in
+          Some {| d_tabs := d_tabs s; d_cur := d_cur s; d_pend := d_pend s; d_pos := (a, line);
+                  d_out := EvCost cob cfl cfn a line cost :: d_out s |}
       end
   | GCalls p line =>
-      match d_call s, d_pfn s with
+      match call, pfn with
       | None, Some _ =>
-          Some {| d_ob := d_ob s; d_fl := d_fl s; d_fn := d_fn s; d_cob := d_cob s; d_cfl := d_cfl s; d_cfn := d_cfn s;
-                  d_pfl := d_pfl s; d_pfn := d_pfn s; d_call := Some (dpos (d_addr s) p, line);
-                  d_addr := d_addr s; d_line := d_line s; d_out := d_out s |}
+          Some {| d_tabs := d_tabs s; d_cur := d_cur s; d_pend := (pfl, pfn, Some (dpos addr p, line)); d_pos := d_pos s; d_out := d_out s |}
       | _, _ => None
       end
   | GCallCost cost =>
-      match d_call s, d_pfn s with
-      | Some (ta, tl), Some cfn =>
-          let cfl := match d_pfl s with Some f => f | None => d_cfl s end in
-          Some {| d_ob := d_ob s; d_fl := d_fl s; d_fn := d_fn s; d_cob := d_cob s; d_cfl := d_cfl s; d_cfn := d_cfn s;
-                  d_pfl := None; d_pfn := None; d_call := None; d_addr := d_addr s; d_line := d_line s;
-                  d_out := EvCall (d_cob s) (d_cfl s) (d_cfn s) cfl cfn ta tl (d_addr s) (d_line s) cost :: d_out s |}
+      match call, pfn with
+      | Some (ta, tl), Some n =>
+          let f := match pfl with Some f => f | None => cfl end in
+          Some {| d_tabs := d_tabs s; d_cur := d_cur s; d_pend := (None, None, None); d_pos := d_pos s;
+                  d_out := EvCall cob cfl cfn f n ta tl addr line0 cost :: d_out s |}
       | _, _ => None
       end
   end.
